@@ -333,7 +333,7 @@ func TestC16(t *testing.T) {
 								conn.Close()
 							}
 							if c.group != "" && err == nil {
-								if err := dialAs(65534, 1, f[3]); err != nil {
+								if err := dialAs(65534, 1, f[3], dir); err != nil {
 									bad("announced address cannot be connected to by a host that is a member of the configured socket group (uid 65534, gid 1): %v", err)
 								}
 							}
@@ -396,8 +396,9 @@ func openPty() (master, slave *os.File, err error) {
 
 // dialAs connects to a unix socket the way a process with that user and group id would be allowed to: the calling
 // thread's filesystem uid/gid are switched (setfsuid/setfsgid are per thread and drop CAP_DAC_OVERRIDE while non-zero);
-// the thread is not reused afterwards.
-func dialAs(uid, gid uintptr, path string) error {
+// the thread is not reused afterwards. control is a directory made by the test on the way to the socket: if that user
+// cannot reach even that, nothing is decided.
+func dialAs(uid, gid uintptr, path, control string) error {
 	res := make(chan error, 1)
 	go func() {
 		runtime.LockOSThread() // never unlocked: the thread ends with the goroutine
@@ -405,6 +406,10 @@ func dialAs(uid, gid uintptr, path string) error {
 		syscall.RawSyscall(syscall.SYS_SETFSUID, uid, 0, 0)
 		if cur, _, _ := syscall.RawSyscall(syscall.SYS_SETFSUID, uid, 0, 0); cur != uid {
 			res <- nil // not privileged enough to impersonate anybody: nothing to decide
+			return
+		}
+		if _, err := os.Stat(control); err != nil {
+			res <- nil // that user cannot even reach the directory the test itself made: the rig decides nothing
 			return
 		}
 		c, err := net.Dial("unix", path)
